@@ -242,7 +242,12 @@ pub fn gen_entries_with(rng: &mut Rng, n: usize, class: KeyClass, block: usize, 
             vl = rng.urange(0, 8);
         }
         total += vl + k.len();
-        let v = make_value(rng, i, vl, compressible);
+        // now and then the value is the key itself (equal lengths, equal bytes) or has the key's length
+        let v = match rng.below(24) {
+            0 => k.clone(),
+            1 => make_value(rng, i, k.len(), compressible),
+            _ => make_value(rng, i, vl, compressible),
+        };
         out.push((B(k), B(v)));
     }
     out
